@@ -24,6 +24,8 @@ type Session struct {
 	// where the call numbering depends on the schedule): direct checks only.
 	Quiet       bool
 	Concurrency int
+
+	everOff map[memstore.ScannerKey]bool // scanners that were configured with a failing Configure since reset
 }
 
 func (s *Session) op(op, out string, nontrivial bool) {
@@ -42,6 +44,7 @@ func (s *Session) Reset() {
 	s.W = NewWorld()
 	s.W.Concurrency = s.Concurrency
 	s.Manifests = map[string][]int{}
+	s.everOff = map[memstore.ScannerKey]bool{}
 	if !s.Quiet {
 		s.R.Op("reset", "ok", false)
 	}
@@ -67,6 +70,29 @@ func (s *Session) Index(layers []int, script Script, dead bool) Result {
 	}
 	s.count(res, script, dead)
 	return res
+}
+
+// New performs one libindex.New with faulty arguments / environment and emits it.
+func (s *Session) New(nf NewFaults, cfg Config) string {
+	out := s.W.New(nf, cfg)
+	s.op(NewOp(nf, cfg), out, true)
+	if strings.HasPrefix(out, "tok") {
+		s.R.Count("new.ok")
+	} else {
+		s.R.Count("new." + strings.SplitN(out, " ", 2)[0] + " faults=" + nf.String()[:1])
+	}
+	return out
+}
+
+// Net switches the world's network (scanners flagged N) and emits it.
+func (s *Session) Net(down bool) {
+	s.W.NetDown = down
+	x := "up"
+	if down {
+		x = "down"
+	}
+	s.op("net "+x, "ok", false)
+	s.R.Count("net." + x)
 }
 
 // Delete performs one DeleteManifests operation and emits it.
@@ -119,11 +145,12 @@ func bucket(n int) int {
 // with the given configuration and no fault ("the report a fault-free run
 // produces"). It does not emit protocol lines.
 func (s *Session) Cold(cfg Config, layers []int) Result {
-	key := cfg.String() + "|" + LayersString(layers)
+	key := cfg.String() + "|" + LayersString(layers) + "|" + b01(s.W.NetDown)
 	if r, ok := s.cold[key]; ok {
 		return r
 	}
 	w := NewWorld()
+	w.NetDown = s.W.NetDown
 	if _, err := w.Configure(cfg); err != nil {
 		return Result{ErrClass: "gen"}
 	}
@@ -134,12 +161,12 @@ func (s *Session) Cold(cfg Config, layers []int) Result {
 
 // ExpectedArtifacts is what scanner k must have stored for layer l, computed
 // from the stub table alone.
-func ExpectedArtifacts(cfg Config, k memstore.ScannerKey, l int) []string {
+func ExpectedArtifacts(k memstore.ScannerKey, l int, down bool) []string {
 	var out []string
 	if k.Kind == "file" {
 		return out
 	}
-	items := Items(k.Name, k.Version, l)
+	items := ItemsNet(k.Name, k.Version, l, true, down)
 	pre := map[string]string{"package": "p:p", "distribution": "d:d", "repository": "r:r"}[k.Kind]
 	seen := map[string]bool{}
 	for _, it := range items {
@@ -164,14 +191,34 @@ func sortStrings(a []string) {
 	}
 }
 
+// FindingUnconfigured is the id of the listed finding about scanners whose
+// Configure failed.
+const FindingUnconfigured = "unconfigured-scanner-marked"
+
+// Bad is one violated clause of CheckStore; Class is the id of the listed
+// finding whose exact shape it has ("" otherwise).
+type Bad struct{ Class, Msg string }
+
 // CheckStore evaluates the persistent half of the C07 statement directly on
 // the store: a manifest recorded as scanned by a scanner has every layer
 // recorded as scanned by it, a layer recorded as scanned has exactly the
 // scanner's artifacts stored, and a report is stored. It returns descriptions
 // of what fails.
-func (s *Session) CheckStore() []string {
-	var bad []string
+func (s *Session) CheckStore() []Bad {
+	var bad []Bad
 	keys := s.W.Keys()
+	for _, sp := range s.W.Cfg {
+		if sp.Off() {
+			s.everOff[memstore.ScannerKey{Name: sp.Name, Version: sp.Version, Kind: sp.KindName()}] = true
+		}
+	}
+	// what each marked pair was last scanned under (network up / down)
+	lastDown := map[string]bool{}
+	s.W.mu.Lock()
+	for _, ev := range s.W.Scans {
+		lastDown[fmt.Sprintf("%d|%v", ev.Layer, ev.Scanner)] = ev.Down
+	}
+	s.W.mu.Unlock()
 	layers := map[int]bool{}
 	for _, ls := range s.Manifests {
 		mh := ManifestDigest(ls).String()
@@ -181,11 +228,16 @@ func (s *Session) CheckStore() []string {
 			}
 			for _, l := range ls {
 				if !s.W.Store.HasLayerScanned(LayerDigest(l).String(), k) {
-					bad = append(bad, fmt.Sprintf("manifest %s recorded scanned by %s/%s/%s but layer %d is not", LayersString(ls), k.Kind, k.Name, k.Version, l))
+					cls := ""
+					if s.everOff[k] {
+						// the scanner's Configure failed: it is never run but stays in the list of configured scanners
+						cls = FindingUnconfigured
+					}
+					bad = append(bad, Bad{cls, fmt.Sprintf("manifest %s recorded scanned by %s/%s/%s but layer %d is not", LayersString(ls), k.Kind, k.Name, k.Version, l)})
 				}
 			}
 			if _, ok := s.W.Store.StoredReport(mh); !ok {
-				bad = append(bad, fmt.Sprintf("manifest %s recorded scanned but no report stored", LayersString(ls)))
+				bad = append(bad, Bad{"", fmt.Sprintf("manifest %s recorded scanned but no report stored", LayersString(ls))})
 			}
 		}
 		for _, l := range ls {
@@ -198,13 +250,13 @@ func (s *Session) CheckStore() []string {
 				continue
 			}
 			got := s.W.Store.ArtifactNames(LayerDigest(l).String(), k)
-			want := ExpectedArtifacts(s.W.Cfg, k, l)
+			want := ExpectedArtifacts(k, l, lastDown[fmt.Sprintf("%d|%v", l, k)])
 			if len(got) == 0 && len(want) == 0 {
 				continue
 			}
 			if !reflect.DeepEqual(got, want) {
-				bad = append(bad, fmt.Sprintf("layer %d recorded scanned by %s/%s/%s but stored artifacts are [%s], the scanner finds [%s]",
-					l, k.Kind, k.Name, k.Version, strings.Join(got, " "), strings.Join(want, " ")))
+				bad = append(bad, Bad{"", fmt.Sprintf("layer %d recorded scanned by %s/%s/%s but stored artifacts are [%s], the scanner finds [%s]",
+					l, k.Kind, k.Name, k.Version, strings.Join(got, " "), strings.Join(want, " "))})
 			}
 		}
 	}
